@@ -75,6 +75,9 @@ func Corpus() []*Schema {
 		// a message with a required field whose own Size() is 0 when nothing is set (no required bytes field),
 		// nested in every position
 		{Name: "ReqS", Fields: []F{{"id", 1, "int32", "req"}, {"note", 2, "string", "opt"}}},
+		// required fields declared AFTER a repeated field, a map and a oneof
+		{Name: "ReqLate", Fields: []F{{"labels", 1, "string", "rep"}, {"by", 2, "int32", "map:string"}, {"a", 3, "int32", "oneof:pick"}, {"b", 4, "string", "oneof:pick"},
+			{"id", 5, "int32", "req"}, {"sub", 6, "msg:ReqS", "req"}}},
 		{Name: "ReqSNest", Fields: []F{{"may", 1, "msg:ReqS", "opt"}, {"many", 2, "msg:ReqS", "rep"}, {"by", 3, "msg:ReqS", "map:string"},
 			{"one", 4, "msg:ReqS", "oneof:pick"}, {"other", 5, "string", "oneof:pick"}}},
 	}
@@ -89,6 +92,11 @@ func Corpus() []*Schema {
 	ext.Messages = []M{{Name: "Base", Fields: []F{{"id", 1, "int32", "opt"}, {"name", 2, "string", "opt"}}, Ranges: [][2]int32{{100, 536870912}}},
 		{Name: "Holder", Fields: []F{{"note", 1, "string", "opt"}, {"n", 2, "int64", "opt"}}, Ext: xs}}
 	cs = append(cs, ext)
+	// a foreign proto2 message type with required fields (marshaled / decoded by its runtime, reached through
+	// Encoder.EncodeNested / Decoder.DecodeNested)
+	cs = append(cs, &Schema{ID: "reqforeign", Syntax: "proto2", Only: []string{"v1", "v2"}, Imports: []string{"google/protobuf/descriptor.proto"},
+		Messages: []M{{Name: "Holder", Fields: []F{{"label", 1, "string", "opt"}, {"part", 2, "wkt:google.protobuf.UninterpretedOption.NamePart", "opt"},
+			{"parts", 3, "wkt:google.protobuf.UninterpretedOption.NamePart", "rep"}}}}})
 	// foreign messages (well-known types)
 	wkt := &Schema{ID: "wkt", Syntax: "proto3", Imports: []string{"google/protobuf/timestamp.proto", "google/protobuf/duration.proto", "google/protobuf/wrappers.proto"}}
 	wkt.Messages = []M{{Name: "Event", Fields: []F{{"name", 1, "string", "opt"}, {"at", 2, "wkt:google.protobuf.Timestamp", "opt"}, {"took", 3, "wkt:google.protobuf.Duration", "opt"},
